@@ -277,7 +277,7 @@ def run_case(case, ctx):
 
 def run(ctx):
     rec = ctx.rec
-    n = ctx.pick(8000, 150000)
+    n = ctx.pick(8000, 600000)
     for i in range(n):
         if not ctx.mine(i):
             continue
